@@ -4,64 +4,69 @@
 
     Vocabulary (C06/Model.v, C06/Spec.v):
     - [run fx ops] the repository model (AddRuleSet / UpdateRuleSet / DeleteRuleSet of
-      repository_impl.go over the abstract index) after the history [ops]; [fx]
-      says which of the repairs of C06-F3 / F4 / F5 the code contains:
-      [all_fix] is the tree as it is now (fix: commits 2d9cd1f, 003095f, f6ce52b),
-      [no_fix] the pinned commit;
+      repository_impl.go over the abstract index; [Refused]: stopped by the rule-set
+      processor) after the history [ops]; [fx] says which of the repairs of
+      C06-F3 / F4 / F5 the code contains: [all_fix] is the tree as it is now
+      (fix: commits 2d9cd1f, 003095f, f6ce52b), [no_fix] the pinned commit;
     - [current ops] the rule sets that exist after [ops] according to the
-      specification: a creation / update that can be applied ([spec_ok]: all
-      path expressions valid, no expression owned by another rule set) replaces
-      the set, one that cannot is ignored, a deletion removes it;
+      specification: a creation / update that can be applied ([spec_ok]: all path
+      expressions valid — which includes compatible wildcard names for equal
+      patterns, tree.go reports both as "invalid path" —, no expression owned by
+      another rule set) replaces the set, one that cannot is ignored, a deletion
+      removes it;
     - [fresh fx S] the model after loading the sets [S] once into an empty instance;
     - [wf_history] a rule set is only created when it does not exist;
-    - [open_guards ops] one of the guards of the OPEN findings fires on [ops]:
-      C06-F1 (order after an update), C06-F2 (node flag), C06-F6 (duplicate ids);
-    - [no_guard_fx fx ops] no guard of a finding that the code [fx] has fires;
-      [no_guard_fx no_fix] is all six guards.  ([guard_F3] and [guard_F5] are about
-      node compression and stale key names, which the abstract index does not
-      have; for the pinned commit they are hypotheses because the implementation
-      is only claimed to behave like this model outside them.) *)
-From HV Require Import Base.Prelude C06.Pat C06.Model C06.Spec C06.Tree C06.Proofs C06.Witness.
+    - [guard_dupid ops] some rule set submitted in [ops] has two rules with the same
+      id (open finding C06-F6);
+    - [dirty ops] the sources that, after [ops], are in the state the open findings
+      C06-F1 (an update re-appended a changed rule behind unchanged siblings on the
+      same expression, or ignored a reordering) or C06-F2 (an accepted rule set in
+      which rules sharing an expression differ in backtracking_enabled) leave;
+      deleting the rule set cleans its source ([C06_delete_cleans]);
+    - [no_guard_fx fx ops] the coarse, history-global form: no guard of a finding
+      that the code [fx] has fires anywhere in [ops]. *)
+From HV Require Import Base.Prelude C06.Pat C06.Model C06.Spec C06.Tree C06.ReprFacts C06.Proofs C06.Witness.
 
-(** THE TREE AS IT IS NOW: the index after any history is the index of a fresh
-    load of the current rule sets (the index is kept in a canonical order, so this
-    is equality) — outside the guards of the three open findings *)
+(** THE TREE AS IT IS NOW: when no source is left in the state C06-F1 / C06-F2
+    leave, the index after the history is the index of a fresh load of the current
+    rule sets (the index is kept in a canonical order, so this is equality) *)
 Theorem C06_history_equals_fresh : forall ops,
-  wf_history ops = true -> open_guards ops = false ->
+  wf_history ops = true -> guard_dupid ops = false -> dirty ops = [] ->
   index (run all_fix ops) = index (fresh all_fix (current ops)).
 Proof. exact now_history_equals_fresh. Qed.
 Print Assumptions C06_history_equals_fresh.
 
-(** the same for every combination of the repairs, in particular the pinned
-    commit ([no_fix]: all six guards) *)
+(** the coarse form, for every combination of the repairs, in particular the
+    pinned commit ([no_fix]: all six guards) *)
 Theorem C06_history_equals_fresh_any : forall fx ops,
   wf_history ops = true -> no_guard_fx fx ops = true ->
   index (run fx ops) = index (fresh fx (current ops)).
-Proof. exact history_equals_fresh. Qed.
+Proof. exact history_equals_fresh_guards. Qed.
 Print Assumptions C06_history_equals_fresh_any.
 
 (** hence every request, under every outcome of the rules' conditions, finds the
     same rule as in a fresh instance *)
 Theorem C06_lookups_equal_fresh : forall ops,
-  wf_history ops = true -> open_guards ops = false ->
+  wf_history ops = true -> guard_dupid ops = false -> dirty ops = [] ->
   forall pinned_lookup path (conditions : route -> bool),
     find_rule pinned_lookup (index (run all_fix ops)) path conditions =
     find_rule pinned_lookup (index (fresh all_fix (current ops))) path conditions.
 Proof. exact now_lookups_equal_fresh. Qed.
 Print Assumptions C06_lookups_equal_fresh.
 
-(** a rejected change leaves the repository unchanged — for every state and
-    every operation, no hypothesis *)
-Theorem C06_rejected_is_noop : forall fx (st : repo) o st' e,
-  step fx st o = (st', Some e) -> st' = st.
-Proof. exact rejected_is_noop. Qed.
-Print Assumptions C06_rejected_is_noop.
+(** deleting a rule set ends whatever C06-F1 / C06-F2 did to its source *)
+Theorem C06_delete_cleans : forall ops s, ~ In s (dirty (ops ++ [Delete s])).
+Proof. exact delete_cleans. Qed.
+Print Assumptions C06_delete_cleans.
+
+(** The following hold ALSO for histories that went through C06-F1 / C06-F2 (no
+    hypothesis on [dirty]). *)
 
 (** after any history, an operation is rejected exactly when it cannot be applied
-    (invalid path expression, incompatible wildcard names, expression owned by
+    (invalid path expression incl. incompatible wildcard names, expression owned by
     another rule set), and then nothing changes *)
 Theorem C06_rejected_iff_cannot_apply : forall ops o,
-  wf_history (ops ++ [o]) = true -> open_guards (ops ++ [o]) = false ->
+  wf_history (ops ++ [o]) = true -> guard_dupid (ops ++ [o]) = false ->
   exists st' res, step all_fix (run all_fix ops) o = (st', res) /\
     (res = None <-> spec_ok (current ops) o = true) /\ (res <> None -> st' = run all_fix ops).
 Proof. exact now_rejected_iff_cannot_apply. Qed.
@@ -70,16 +75,25 @@ Print Assumptions C06_rejected_iff_cannot_apply.
 (** rules of deleted or replaced versions never match again: whatever a lookup
     returns belongs to the current version of an existing rule set *)
 Theorem C06_deleted_never_match : forall ops,
-  wf_history ops = true -> open_guards ops = false ->
+  wf_history ops = true -> guard_dupid ops = false ->
   forall pinned_lookup path conditions r,
     find_rule pinned_lookup (index (run all_fix ops)) path conditions = Some r ->
     In (r_def r) (get_set (current ops) (r_src r)).
 Proof. exact now_found_is_current. Qed.
 Print Assumptions C06_deleted_never_match.
 
+(** unchanged (and all other current) rules keep working: every route of every
+    rule of a current rule set is a value of the node of its pattern *)
+Theorem C06_current_rules_indexed : forall ops,
+  wf_history ops = true -> guard_dupid ops = false ->
+  forall r x p, In (r_def r) (get_set (current ops) (r_src r)) -> In x (routes_of r) -> rpat x = Some p ->
+    exists n, get (index (run all_fix ops)) p = Some n /\ In x (vals n).
+Proof. exact now_current_rules_indexed. Qed.
+Print Assumptions C06_current_rules_indexed.
+
 (** same-source constraint: the rules sharing a path expression come from one rule set *)
 Theorem C06_same_source_constraint : forall ops,
-  wf_history ops = true -> open_guards ops = false ->
+  wf_history ops = true -> guard_dupid ops = false ->
   forall q n x y, get (index (run all_fix ops)) q = Some n -> In x (vals n) -> In y (vals n) -> rt_src x = rt_src y.
 Proof. exact now_node_has_one_source. Qed.
 Print Assumptions C06_same_source_constraint.
@@ -144,18 +158,20 @@ Print Assumptions C06_repaired_examples.
 (** non-vacuity: the hypotheses of the theorems for the tree as it is now hold for
     (1) a history with three sources, shared prefixes, wildcards, rules sharing an
     expression, an update changing one of several rules, a rejected creation, an
-    invalid expression, deletion and re-creation, and (2) a history in the
-    territory of the repaired findings (node boundary in front of ':', a path
-    listed twice, a renamed path parameter next to a kept node) *)
+    invalid expression, deletion and re-creation; (2) a history in the territory of
+    the repaired findings (node boundary in front of ':', a path listed twice, a
+    renamed path parameter next to a kept node); (3) a history that goes through
+    C06-F1 and C06-F2 (the history-global guards fire) and recovers by deleting and
+    re-creating the rule sets *)
 Example C06_nonvacuous :
-  (wf_history w_plain = true /\ open_guards w_plain = false /\
+  (wf_history w_plain = true /\ guard_dupid w_plain = false /\ dirty w_plain = [] /\
    length (index (run all_fix w_plain)) = 3 /\ m_answer (run all_fix w_plain) 1 "/b/x" = Some 10) /\
-  (wf_history w_now = true /\ open_guards w_now = false /\
+  (wf_history w_now = true /\ guard_dupid w_now = false /\ dirty w_now = [] /\
    guard_F3 w_now = true /\ guard_F4 w_now = true /\ guard_F5 w_now = true /\
    length (current w_now) = 3 /\ length (index (run all_fix w_now)) = 3 /\
-   m_answer (run all_fix w_now) 0 "/d" = Some 1 /\ m_answer (run all_fix w_now) 0 "/k/7" = Some 0).
-Proof.
-  destruct w_plain_now as (A & B & C & D). destruct w_now_ok as (E & F & G & H & I & J & K & L & M & _).
-  repeat split; assumption.
-Qed.
+   m_answer (run all_fix w_now) 0 "/d" = Some 1 /\ m_answer (run all_fix w_now) 0 "/k/7" = Some 0) /\
+  (wf_history w_reset = true /\ guard_dupid w_reset = false /\ guard_F1 w_reset = true /\ guard_F2 w_reset = true /\
+   dirty (firstn 4 w_reset) = [0; 1; 0] /\ dirty w_reset = [] /\
+   length (index (run all_fix w_reset)) = 2 /\ m_answer (run all_fix w_reset) 0 "/x" = Some 2).
+Proof. vm_compute. repeat split; reflexivity. Qed.
 Print Assumptions C06_nonvacuous.
